@@ -629,11 +629,11 @@ def step (s : St) (op : List String) (impl : Option (List String)) : St × Strin
           if a.isNaN || b.isNaN then [] else
           let M := if a > b then a else b
           [("logsum_comm", x == y || (x.isNaN && y.isNaN)),
-           ("logsum_ext_agrees", extAgrees x (LogSpace.logsum (Ext.ofFloat a) (Ext.ofFloat b))),
            ("logsum_zero_zero", !(a == b && a.isInf) || x == a),
            ("logsum_zero_identity", !(a.isInf && a < 0 && finite b) || x == b),
            ("logsum_bounds", !(finite a && finite b) || (finite x && M ≤ x && x ≤ M + log2 * (1.0 + 1e-12) + 1e-300)),
-           ("logsum_spec", !(a.abs ≤ 700.0 && b.abs ≤ 700.0) || fclose x (Float.log (Float.exp a + Float.exp b)))]
+           ("logsum_spec", !(a.abs ≤ 700.0 && b.abs ≤ 700.0) || fclose x (Float.log (Float.exp a + Float.exp b))),
+           ("logsum_ext_agrees", extAgrees x (LogSpace.logsum (Ext.ofFloat a) (Ext.ofFloat b)))]
         | _ => [("logsum_spec", false)])
     | _ => bad
   -- ------------------------------------------------------------ StatTools
